@@ -285,6 +285,36 @@ func (p *Prog) CHA() *callgraph.Graph {
 	return p.cgCHA
 }
 
+// ReachableVTA returns the module functions reachable from the roots in the
+// VTA graph. Calls are followed through functions outside the module as well
+// (a callback handed to the standard library is reached through the library
+// function that calls it), but only module functions are reported.
+func (p *Prog) ReachableVTA(roots ...*ssa.Function) map[*ssa.Function]bool {
+	g := p.CG()
+	seen := map[*ssa.Function]bool{}
+	out := map[*ssa.Function]bool{}
+	work := append([]*ssa.Function{}, roots...)
+	for len(work) > 0 {
+		f := work[len(work)-1]
+		work = work[:len(work)-1]
+		if f == nil || seen[f] {
+			continue
+		}
+		seen[f] = true
+		if InModule(f) && f.Blocks != nil {
+			out[f] = true
+		}
+		if n := g.Nodes[f]; n != nil {
+			for _, e := range n.Out {
+				if !seen[e.Callee.Func] {
+					work = append(work, e.Callee.Func)
+				}
+			}
+		}
+	}
+	return out
+}
+
 // Pos formats a position relative to the analysed directory.
 func (p *Prog) Pos(pos token.Pos) string {
 	if !pos.IsValid() {
